@@ -37,6 +37,11 @@ CLAIMS = {
    "Decides the structural core: writer and reader agree on every status constant and its meaning (success accepted with its policy, failure not accepted, UPTODATE accepted, DIFF lists, sticky DIFF with the approved-since exception, compare consulted only when later than the accepted approve); the reader cannot abort and lists the zero value; all parts (code, ipv6, raw, bz2) are compared; in do-approve every path after the session updates the status and writes END:, and FAILED/return 1 derive exactly from the session result. Not decided: sufficiency of the two-slot encoding over all histories.",
    "Trusted: go/ssa; shared struct type makes field names agree. Histories, clocks and file removal are runtime matters.",
    "DESIGN.md section 4 C13"),
+ "C09": ("other",
+   "dominance / def-use (taint) / immediate-control-dependence analysis on go/ssa in the session code; failure-edge exploration; call-chain checks on the VTA call graph; table-driven error discipline",
+   "Decides the structural core for every device type on every run: each raw send of a change command is followed by validation of the device's answer (both halves of a joined line; exit status on Linux); every error returned inside the apply region and the console layer ends the phase on its failure edge (no break/continue that goes on sending, no dropped error outside the audited table); save/commit is a plain call at every level, nothing sends after it, no recover() can swallow an abort, and the device's reply to the save is positively confirmed; the abort machinery, exit status, status file and history derive from the session result; all waits are finite. Not decided: position-k fault behaviour as executed, device timing.",
+   "Trusted: go/ssa, call graph, goexpect reports time-out/EOF as error, panic unwinding semantics, the exempt rows of tables/err_exempt.tsv (each with a written reason).",
+   "DESIGN.md section 4 C09, E6"),
 }
 
 NOT_APPLICABLE = {
